@@ -32,7 +32,7 @@ idxs = list(range(1000000, 1000000 + n))
 res = {}
 for rnd in (0, 1):
     for i in idxs:
-        case = CHECK.gen(Choices(run_seed(20260924, prop, i)), 'quick')
+        case = CHECK.gen(Choices(run_seed(int(__import__("os").environ.get("VERIF_SEED", "20260924")), prop, i)), 'quick')
         CHECK.run(case)
         res[(rnd, i)] = logs[-1]
 for i in idxs:
